@@ -74,22 +74,36 @@ CoreAtoms == {W("a"), W("1"), Lx("\\#"), Lx("\\-"), Lx("\\."), Lx("&#32;"), Lx("
 TinyAtoms == {W("a"), Lx("\\#"), Lx("\\+"), Code("`x y`"), Em("*", B4), Strong("_", B3), Link(B2, "(u)"), Br("\\")}
 
 (* ---------------- leaf pools ---------------- *)
-Fences == {Fence(0, "`", 3, "", "", <<>>),
-           Fence(0, "`", 3, "sh", "", <<"x">>),
-           Fence(0, "~", 3, "", "`", <<"```">>),
-           Fence(0, "`", 4, " a b", "~", <<"~~~", "", "  y">>),
-           Fence(0, "~", 4, "sh", "", <<"", "x">>),
-           Fence(0, "~", 3, " x`y", "", <<"- z">>),
-           Fence(0, "`", 3, "a\\\\b&amp;c \\&lt;", "", <<"> q">>)}
-ICodes == {ICode(<<"x">>), ICode(<<"x", "", "  y">>)}
+(* code lines that look like closing fences: 0-3 spaces (4 = the control that never closes) and a run of
+   3-5 fence characters, alone or followed by text; in blocks fenced with the same and the other character *)
+CodeFences == {Fence(0, "`", 4, "", <<CL(1, "`", 3, ""), PL("after")>>),
+               Fence(0, "~", 3, "", <<CL(2, "`", 3, "")>>),
+               Fence(0, "~", 4, " x`y", <<CL(1, "~", 3, "")>>),
+               Fence(0, "`", 6, "", <<CL(3, "`", 5, ""), CL(0, "`", 4, " x")>>),
+               Fence(0, "~", 6, "sh", <<CL(3, "~", 5, ""), CL(4, "~", 5, "")>>),
+               Fence(0, "`", 3, "", <<CL(4, "`", 3, "")>>),
+               Fence(0, "`", 3, "", <<CL(0, "`", 3, " x")>>),
+               Fence(0, "~", 3, "", <<CL(1, "`", 4, ""), CL(2, "~", 3, " y")>>)}
+CodeICodes == {ICode(<<CL(1, "`", 3, "")>>), ICode(<<PL("a"), CL(3, "~", 3, ""), CL(0, "`", 3, "")>>),
+               ICode(<<CL(2, "`", 4, " x"), CL(0, "~", 5, "")>>)}
+CodeLeaves == CodeFences \cup CodeICodes
+LeafWheel  == <<"leaf", "leaf", "quote", "list">>
+Fences == {Fence(0, "`", 3, "", <<>>),
+           Fence(0, "`", 3, "sh", <<PL("x")>>),
+           Fence(0, "~", 3, "", <<CL(0, "`", 3, "")>>),
+           Fence(0, "`", 4, " a b", <<CL(0, "~", 3, ""), PL(""), CL(2, "", 0, "y")>>),
+           Fence(0, "~", 4, "sh", <<PL(""), PL("x")>>),
+           Fence(0, "~", 3, " x`y", <<PL("- z")>>),
+           Fence(0, "`", 3, "a\\\\b&amp;c \\&lt;", <<RL("> q", "&gt; q")>>)} \cup CodeFences
+ICodes == {ICode(<<PL("x")>>), ICode(<<PL("x"), PL(""), CL(2, "", 0, "y")>>)} \cup CodeICodes
 Thems  == {Them(0, "*", "***"), Them(0, "-", "---"), Them(0, "_", "___"), Them(0, "*", "* * *"),
            Them(0, "-", "- - -"), Them(0, "-", "-----")}
 Htmls  == {Html(0, <<"<div>", "x", "</div>">>), Html(0, <<"<!-- c -->">>),
            Html(0, <<"<pre>", "", "y", "</pre>">>), Html(0, <<"<b>">>), Html(0, <<"<?php", "?>">>)}
 FullLeaves == Fences \cup ICodes \cup Thems \cup Htmls
-CoreLeaves == {Fence(0, "`", 3, "sh", "", <<"x">>), Fence(0, "~", 3, "", "`", <<"```">>), ICode(<<"x">>),
+CoreLeaves == {Fence(0, "`", 3, "sh", <<PL("x")>>), Fence(0, "~", 3, "", <<CL(0, "`", 3, "")>>), ICode(<<PL("x")>>),
                Them(0, "*", "***"), Them(0, "-", "---"), Html(0, <<"<div>", "x", "</div>">>)}
-TinyLeaves == {Fence(0, "~", 3, "", "`", <<"```">>), Them(0, "-", "---"), Html(0, <<"<b>">>)}
+TinyLeaves == {Fence(0, "~", 3, "", <<CL(0, "`", 3, "")>>), Them(0, "-", "---"), Html(0, <<"<b>">>)}
 
 (* ---------------- shapes ---------------- *)
 FullAtx    == {[lvl |-> 1, closer |-> ""], [lvl |-> 2, closer |-> " #"], [lvl |-> 6, closer |-> " ##  "], [lvl |-> 3, closer |-> ""], [lvl |-> 4, closer |-> " {#id}"]}
